@@ -381,9 +381,57 @@ var _ = sort.Strings
 
 // query runs one gRPC query handler and renders the answer in the record format of the state dump
 func (e *Env) query(f map[string]string) (Result, []string) {
+	out, _, err := e.queryPage(f, &query.PageRequest{Limit: 100000})
+	if err != nil {
+		return Result{"qerr", oneLine(err.Error())}, nil
+	}
+	full := append([]string{}, out...)
+	for i := range out {
+		out[i] = "QR " + strings.TrimPrefix(out[i], "ST ")
+	}
+	// listings: paging through the answer with a small page size must give exactly the unpaginated answer,
+	// and the reported total must be its length (C16: listings return exactly the stored objects that qualify)
+	switch f["q"] {
+	case "lista", "listb", "listl", "listv":
+		limit := uint64(1 + (len(full)+len(f["a"]))%3)
+		var paged []string
+		var key []byte
+		total := uint64(0)
+		ok := true
+		for it := 0; it < 10000; it++ {
+			pr := &query.PageRequest{Limit: limit, Key: key, CountTotal: key == nil}
+			lines, res, perr := e.queryPage(f, pr)
+			if perr != nil {
+				ok = false
+				break
+			}
+			if key == nil && res != nil {
+				total = res.Total
+			}
+			paged = append(paged, lines...)
+			if res == nil || len(res.NextKey) == 0 {
+				break
+			}
+			key = res.NextKey
+		}
+		same := ok && len(paged) == len(full) && total == uint64(len(full))
+		if same {
+			for i := range full {
+				if full[i] != paged[i] {
+					same = false
+				}
+			}
+		}
+		out = append(out, fmt.Sprintf("QPAGE same=%d limit=%d paged=%d full=%d total=%d", b2i(same), limit, len(paged), len(full), total))
+	}
+	return Result{"qok", ""}, out
+}
+
+// queryPage runs one gRPC query handler with the given page request
+func (e *Env) queryPage(f map[string]string, page *query.PageRequest) ([]string, *query.PageResponse, error) {
 	var out []string
 	var err error
-	page := &query.PageRequest{Limit: 100000}
+	var pres *query.PageResponse
 	opt := func(k string) string {
 		if f[k] == "-" {
 			return ""
@@ -410,6 +458,7 @@ func (e *Env) query(f map[string]string) (Result, []string) {
 		var r *types.QueryAllAuctionResponse
 		r, err = e.qs.ListAuction(e.ctx, &types.QueryAllAuctionRequest{Status: st, Type: ty, Pagination: page})
 		if err == nil {
+			pres = r.Pagination
 			for _, any := range r.Auction {
 				a, _ := types.UnpackAuction(any)
 				out = append(out, e2.auctionLine(a.GetId(), a))
@@ -435,6 +484,7 @@ func (e *Env) query(f map[string]string) (Result, []string) {
 		var r *types.QueryAllBidResponse
 		r, err = e.qs.ListBid(e.ctx, &types.QueryAllBidRequest{AuctionId: pU64(f["a"]), Bidder: bidder, IsMatched: m, Pagination: page})
 		if err == nil {
+			pres = r.Pagination
 			for _, b := range r.Bid {
 				out = append(out, e2.bidLine(b.AuctionId, b.Id, b))
 			}
@@ -449,6 +499,7 @@ func (e *Env) query(f map[string]string) (Result, []string) {
 		var r *types.QueryAllAllowedBidderResponse
 		r, err = e.qs.ListAllowedBidder(e.ctx, &types.QueryAllAllowedBidderRequest{AuctionId: pU64(f["a"]), Pagination: page})
 		if err == nil {
+			pres = r.Pagination
 			for _, ab := range r.AllowedBidder {
 				out = append(out, e2.allowedLine(ab))
 			}
@@ -457,6 +508,7 @@ func (e *Env) query(f map[string]string) (Result, []string) {
 		var r *types.QueryAllVestingQueueResponse
 		r, err = e.qs.ListVestingQueue(e.ctx, &types.QueryAllVestingQueueRequest{AuctionId: pU64(f["a"]), Pagination: page})
 		if err == nil {
+			pres = r.Pagination
 			for _, v := range r.VestingQueue {
 				out = append(out, e2.vqLine(v))
 			}
@@ -468,11 +520,5 @@ func (e *Env) query(f map[string]string) (Result, []string) {
 			out = append(out, fmt.Sprintf("ST P %s %s %d", encCoins(r.Params.AuctionCreationFee), encCoins(r.Params.PlaceBidFee), r.Params.ExtendedPeriod))
 		}
 	}
-	if err != nil {
-		return Result{"qerr", oneLine(err.Error())}, nil
-	}
-	for i := range out {
-		out[i] = "QR " + strings.TrimPrefix(out[i], "ST ")
-	}
-	return Result{"qok", ""}, out
+	return out, pres, err
 }
